@@ -77,12 +77,19 @@ pub enum Op {
     CancelRetransmissions { id: u8 },
     Configure { id: u8, rto_ms: u32, retransmits: u8, last_ms: u32 },
     SetRemoteCreds(u8),
+    /// set_local_credentials with key k (the same keys as the remote ones): has no bearing on which
+    /// responses are accepted
+    SetLocalCreds(u8),
 }
 
 #[derive(Debug, Clone, PartialEq, Eq, Hash, Serialize, Deserialize)]
 pub struct History {
     pub tcp: bool,
     pub ops: Vec<Op>,
+    /// 0: the agent is built without a remote address; k: with remote_addr(peer(k-1)). The remote
+    /// address is informational: it has no bearing on where transmissions go.
+    #[serde(default)]
+    pub remote: u8,
 }
 
 pub const POOL_IDS: [u128; 4] = [
@@ -93,11 +100,17 @@ pub const POOL_IDS: [u128; 4] = [
 ];
 pub const UNKNOWN_ID: u128 = 0x7777_0000_0000_0000_0000_0001;
 
+/// ids 0..=3 are the pool; 4..=6 are aliases of pool ids (equal in the low 64 bits, in the low 95
+/// bits, in the high 64 bits): a table keyed on part of the id would conflate them; 7.. are unrelated
+pub const N_IDS: u8 = 7;
+
 pub fn pool_id(i: u8) -> u128 {
-    if (i as usize) < POOL_IDS.len() {
-        POOL_IDS[i as usize]
-    } else {
-        UNKNOWN_ID + (i as u128 - 4)
+    match i {
+        0..=3 => POOL_IDS[i as usize],
+        4 => POOL_IDS[0] ^ (1u128 << 64),
+        5 => POOL_IDS[1] ^ (1u128 << 95),
+        6 => (POOL_IDS[0] & !0xffff_ffffu128) | 0x1234_5678,
+        _ => UNKNOWN_ID + (i as u128 - 7),
     }
 }
 
@@ -105,11 +118,18 @@ pub fn local_addr() -> SocketAddr {
     "10.0.0.1:3478".parse().unwrap()
 }
 
+/// peers 0..=2 are unrelated hosts; 3..=5 are twins of them as far as a lossy comparison goes
+/// (IPv4-mapped spelling of peer 0, peer 2 on another scope, peer 0 on the next port)
+pub const N_PEERS: u8 = 6;
+
 pub fn peer(i: u8) -> SocketAddr {
-    match i % 3 {
+    match i % N_PEERS {
         0 => "192.0.2.1:3478".parse().unwrap(),
         1 => "192.0.2.2:50000".parse().unwrap(),
-        _ => "[2001:db8::7]:3478".parse().unwrap(),
+        2 => "[2001:db8::7]:3478".parse().unwrap(),
+        3 => "[::ffff:192.0.2.1]:3478".parse().unwrap(),
+        4 => SocketAddr::V6(std::net::SocketAddrV6::new("2001:db8::7".parse().unwrap(), 3478, 0, 3)),
+        _ => "192.0.2.1:3479".parse().unwrap(),
     }
 }
 
@@ -186,6 +206,7 @@ pub struct Summary {
     pub loose: u32,
     pub overlap_with_retransmission: bool,
     pub lib_validation_disagrees: u32,
+    pub reconfigured_midflight: u32,
 }
 
 // ---------------------------------------------------------------------------------------------
@@ -470,6 +491,15 @@ pub struct Interp<'h> {
     noise: Vec<StunAgent>,
 }
 
+pub fn build_agent(transport: TransportType, remote: u8) -> StunAgent {
+    let b = StunAgent::builder(transport, local_addr());
+    if remote == 0 {
+        b.build()
+    } else {
+        b.remote_addr(peer(remote - 1)).build()
+    }
+}
+
 fn ms_of(origin: Instant, t: Instant) -> u64 {
     t.checked_duration_since(origin).map(|d| d.as_millis() as u64).unwrap_or(0)
 }
@@ -487,7 +517,7 @@ impl<'h> Interp<'h> {
         Interp {
             h,
             origin,
-            agent: StunAgent::builder(transport, local_addr()).build(),
+            agent: build_agent(transport, h.remote),
             model: Model {
                 tcp: h.tcp,
                 outstanding: BTreeMap::new(),
@@ -574,7 +604,8 @@ impl<'h> Interp<'h> {
 
     /// observations made after every call
     fn check_observables(&mut self) -> Result<(), Disc> {
-        for (i, id) in POOL_IDS.iter().enumerate() {
+        let all_ids: Vec<u128> = (0..N_IDS).map(pool_id).collect();
+        for (i, id) in all_ids.iter().enumerate() {
             let got = self.agent.request_transaction(TransactionId::from(*id)).map(|r| r.peer_address());
             let want = self.model.outstanding.get(id);
             match (got, want) {
@@ -612,7 +643,7 @@ impl<'h> Interp<'h> {
         if self.agent.request_transaction(TransactionId::from(UNKNOWN_ID)).is_some() {
             return Err(self.d("C05", "c05-still-outstanding", "a transaction exists for an id that was never sent".into()));
         }
-        let mut addrs: Vec<SocketAddr> = (0..3).map(peer).collect();
+        let mut addrs: Vec<SocketAddr> = (0..N_PEERS).map(peer).collect();
         addrs.push(never_used_peer());
         addrs.push(local_addr());
         // the same IPv6 address and port with another scope id / flow label, and the neighbouring
@@ -1360,17 +1391,20 @@ impl<'h> Interp<'h> {
                 if let Some(mut r) = self.agent.mut_request_transaction(TransactionId::from(tid)) {
                     r.configure_timeout(Duration::from_millis(*rto_ms as u64), *retransmits as u32, Duration::from_millis(*last_ms as u64));
                     if let Some(tx) = self.model.outstanding.get_mut(&tid) {
-                        let fresh = matches!(&tx.timing, Timing::Exact { i: 0, .. }) && tx.transmissions == 1;
-                        if fresh {
+                        // The statement counts retransmissions of the request: the k-th becomes due
+                        // rto*2^(k-1) after the previous transmission and there are `retransmits` of them,
+                        // then the final timeout. A reconfiguration replaces rto / retransmits / last
+                        // timeout; how many retransmissions were already handed out, and when the last
+                        // one was, are facts it cannot change. (Transactions whose retransmissions
+                        // were cancelled have no prescribed end and stay loose.)
+                        if let Timing::Exact { timeouts, last, i, .. } = &mut tx.timing {
                             let (t, l) = configured(tcp, *rto_ms as u64, *retransmits as u32, *last_ms as u64);
-                            if let Timing::Exact { timeouts, last, .. } = &mut tx.timing {
-                                *timeouts = t;
-                                *last = l;
+                            *timeouts = t;
+                            *last = l;
+                            if *i > 0 {
+                                self.sum.reconfigured_midflight += 1;
                             }
-                            tx.max_transmissions = if tcp { 1 } else { *retransmits as u32 + 1 };
-                        } else if !matches!(tx.timing, Timing::Loose) {
-                            tx.timing = Timing::Loose;
-                            self.sum.loose += 1;
+                            tx.max_transmissions = if tcp { 1 } else { (*retransmits as u32 + 1).max(tx.transmissions) };
                         }
                         self.model.pending_wait = None;
                     }
@@ -1380,6 +1414,9 @@ impl<'h> Interp<'h> {
                 let c = creds_k(*k % 2);
                 self.agent.set_remote_credentials(c.to_lib());
                 self.model.remote = Some(c);
+            }
+            Op::SetLocalCreds(k) => {
+                self.agent.set_local_credentials(creds_k(*k % 3).to_lib());
             }
         }
         self.check_observables()
@@ -1465,6 +1502,7 @@ pub fn shift_config(h: &History, d: u32) -> History {
     let mv = |x: u32| if x + d <= 60_000 { x + d } else { x.saturating_sub(d) };
     History {
         tcp: h.tcp,
+        remote: h.remote,
         ops: h
             .ops
             .iter()
@@ -1514,6 +1552,7 @@ pub fn run_history_info(h: &History) -> RunInfo {
 pub fn without_steps(h: &History, steps: &[usize], drained: &[usize]) -> History {
     History {
         tcp: h.tcp,
+        remote: h.remote,
         ops: h
             .ops
             .iter()
@@ -1576,14 +1615,15 @@ fn cfg_strategy() -> BoxedStrategy<(u32, u8, u32)> {
 }
 
 pub fn op_strategy(p: Profile) -> BoxedStrategy<Op> {
-    let id = || prop_oneof![3 => 0u8..2, 1 => 0u8..4];
+    let id = || prop_oneof![6 => 0u8..2, 2 => 0u8..4, 1 => 4u8..N_IDS];
+    let addr = || prop_oneof![5 => 0u8..3, 1 => 3u8..N_PEERS];
     let seal = move || match p {
         Profile::Auth => prop_oneof![1 => Just(0u8), 5 => 1u8..4].boxed(),
         _ => prop_oneof![3 => Just(0u8), 2 => 1u8..4].boxed(),
     };
-    let send = (id(), prop_oneof![8 => Just(0u8), 1 => 1u8..4], seal(), 0u8..3, any::<u8>())
+    let send = (id(), prop_oneof![8 => Just(0u8), 1 => 1u8..4], seal(), addr(), any::<u8>())
         .prop_map(|(id, class, seal, dest, payload)| Op::Send { id, class, seal, dest, payload });
-    let send_cfg = (id(), seal(), 0u8..3, any::<u8>(), cfg_strategy()).prop_map(|(id, seal, dest, payload, (rto_ms, retransmits, last_ms))| Op::SendConfigured {
+    let send_cfg = (id(), seal(), addr(), any::<u8>(), cfg_strategy()).prop_map(|(id, seal, dest, payload, (rto_ms, retransmits, last_ms))| Op::SendConfigured {
         id,
         seal,
         dest,
@@ -1593,16 +1633,16 @@ pub fn op_strategy(p: Profile) -> BoxedStrategy<Op> {
         last_ms,
     });
     let response = (
-        prop_oneof![6 => id(), 1 => 4u8..6],
+        prop_oneof![6 => id(), 1 => 4u8..10],
         any::<bool>(),
         auth_strategy(),
-        0u8..3,
+        addr(),
         any::<bool>(),
         // mostly the plain response; otherwise REALM / NONCE / USERNAME / address in all combinations
         prop_oneof![3 => Just(0u8), 2 => any::<u8>(), 1 => (0u8..8).prop_map(|c| c | 0x28), 1 => (0u8..8).prop_map(|c| c | 0x38)],
     )
         .prop_map(|(id, error, auth, from, fp, content)| Op::Response { id, error, auth, from, fp, content });
-    let incoming = (prop_oneof![2 => id(), 1 => 4u8..6], any::<bool>(), 0u8..3).prop_map(|(id, indication, from)| Op::Incoming { id, indication, from });
+    let incoming = (prop_oneof![2 => id(), 1 => 4u8..10], any::<bool>(), addr()).prop_map(|(id, indication, from)| Op::Incoming { id, indication, from });
     let cancel = id().prop_map(|id| Op::Cancel { id });
     let cancel_r = id().prop_map(|id| Op::CancelRetransmissions { id });
     let configure = (id(), cfg_strategy()).prop_map(|(id, (rto_ms, retransmits, last_ms))| Op::Configure {
@@ -1611,7 +1651,7 @@ pub fn op_strategy(p: Profile) -> BoxedStrategy<Op> {
         retransmits,
         last_ms,
     });
-    let set_creds = (0u8..2).prop_map(Op::SetRemoteCreds);
+    let set_creds = prop_oneof![3 => (0u8..2).prop_map(Op::SetRemoteCreds), 1 => (0u8..3).prop_map(Op::SetLocalCreds)];
     let advance = adv_strategy().prop_map(Op::Advance);
     match p {
         Profile::Lifecycle => prop_oneof![
@@ -1640,8 +1680,8 @@ pub fn op_strategy(p: Profile) -> BoxedStrategy<Op> {
 }
 
 pub fn history_strategy(p: Profile, max_ops: usize) -> BoxedStrategy<History> {
-    (prop_oneof![3 => Just(false), 1 => Just(true)], vec(op_strategy(p), 0..=max_ops))
-        .prop_map(|(tcp, ops)| History { tcp, ops })
+    (prop_oneof![3 => Just(false), 1 => Just(true)], vec(op_strategy(p), 0..=max_ops), prop_oneof![3 => Just(0u8), 1 => 1u8..=N_PEERS])
+        .prop_map(|(tcp, ops, remote)| History { tcp, ops, remote })
         .boxed()
 }
 
@@ -1673,7 +1713,7 @@ pub fn record_run_clock(
         }
     };
     let transport = if h.tcp { TransportType::Tcp } else { TransportType::Udp };
-    let mut agent = StunAgent::builder(transport, local_addr()).build();
+    let mut agent = build_agent(transport, h.remote);
     let mut others: Vec<StunAgent> = vec![];
     let mut out = vec![];
     let mut now = 0u64;
@@ -1819,12 +1859,13 @@ pub fn record_run_clock(
                 }
             }
             Op::SetRemoteCreds(k) => agent.set_remote_credentials(creds_k(*k % 2).to_lib()),
+            Op::SetLocalCreds(k) => agent.set_local_credentials(creds_k(*k % 3).to_lib()),
         }
         if restrict_to.is_none() {
-            for id in POOL_IDS {
+            for id in (0..N_IDS).map(pool_id) {
                 replies.push(format!("outstanding {:x} {}", id, agent.request_transaction(TransactionId::from(id)).is_some()));
             }
-            for a in [peer(0), peer(1), peer(2)] {
+            for a in (0..N_PEERS).map(peer) {
                 replies.push(format!("validated {} {}", a, agent.is_validated_peer(a)));
             }
         }
